@@ -261,18 +261,25 @@ func bytesOf(b byte, n int) []byte {
 	return out
 }
 
-// the findings of the unchanged tree (each is pinned in corpus/C44 as well)
+// regressions of the defects fixed in /repo e5e21f6a46 and the remaining findings of the
+// unchanged tree (each is pinned in corpus/C44 as well)
 func genFindings(w *kit.Out) {
 	w.Case("findings")
-	// K ≥ 2^63: int(pk.K) is negative, every threshold comparison passes
+	// K ≥ 2^63 (int(pk.K) negative) and K = 0 used to accept; K > n can never be met
 	emitMs(w, msShape{18446744073709551615, "es", fixedMsg, wfBits(2, nil), nil})
 	emitMs(w, msShape{9223372036854775808, "e", fixedMsg, wfBits(1, nil), nil})
 	emitMs(w, msShape{18446744073709551615, "ese", fixedMsg, wfBits(3, []int{1}), []string{"k1"}})
-	// nil constituent key (amino decodes an empty Any to nil) at a marked position
+	emitMs(w, msShape{0, "es", fixedMsg, wfBits(2, nil), nil})
+	emitMs(w, msShape{0, "es", []byte{}, wfBits(2, nil), nil})
+	emitMs(w, msShape{0, "es", fixedMsg, wfBits(2, []int{0}), []string{"k0"}})
+	emitMs(w, msShape{0, "-", fixedMsg, "nil", nil})
+	emitMs(w, msShape{3, "es", fixedMsg, wfBits(2, []int{0, 1}), []string{"k0", "k1"}})
+	// nil constituent key (amino decodes an empty Any to nil) at a marked position used to panic
 	emitMs(w, msShape{1, "ne", fixedMsg, wfBits(2, []int{0}), []string{"k1"}})
 	emitMs(w, msShape{1, "en", fixedMsg, wfBits(2, []int{0, 1}), []string{"k0", "k0"}})
 	emitMs(w, msShape{1, "en", fixedMsg, wfBits(2, []int{0}), []string{"k0"}})          // nil key not marked: fine
 	emitMs(w, msShape{1, "en", fixedMsg, wfBits(2, []int{0, 1}), []string{"w0", "k0"}}) // fails before reaching it
+	emitMs(w, msShape{1, "n", fixedMsg, wfBits(1, []int{0}), []string{"x"}})
 	// the ante handler's gas consumer walks the same structure unchecked
 	w.Op("gas ese %s 2", wfBits(3, []int{0, 1, 2}))
 	w.Op("gas e 2:c0 2") // bit array larger than the key list: pubkey.PubKeys[1]
@@ -292,7 +299,7 @@ func emitGasRaw(w *kit.Out, spec string, bz []byte) {
 
 // ---------------------------------------------------------------- structured random
 
-func randSpec(r *kit.Rand, n int) string {
+func randSpec(r *kit.Rand, n int, allowNil bool) string {
 	b := make([]byte, n)
 	for i := range b {
 		x := r.Intn(100)
@@ -301,10 +308,14 @@ func randSpec(r *kit.Rand, n int) string {
 			b[i] = 'e'
 		case x < 92:
 			b[i] = 's'
-		case x < 98 || i == 0:
+		case x < 97 || i == 0:
 			b[i] = 't'
-		default:
+		case x < 99:
 			b[i] = 'd'
+		case allowNil:
+			b[i] = 'n'
+		default:
+			b[i] = 'e'
 		}
 	}
 	return string(b)
@@ -326,7 +337,7 @@ func junkSig(r *kit.Rand) string {
 
 func honestShape(r *kit.Rand, msgs [][]byte) (msShape, int, []int) {
 	n := r.Range(1, 7)
-	spec := randSpec(r, n)
+	spec := randSpec(r, n, true)
 	k := r.Range(1, n)
 	var sz int
 	switch x := r.Intn(100); {
@@ -549,7 +560,7 @@ func genBuild(w *kit.Out, r *kit.Rand, msgs [][]byte, count int) {
 	emitBuild(w, 1, "-", fixedMsg, []string{"k0@0"})
 	for c := 0; c < count; c++ {
 		n := r.Range(1, 7)
-		spec := randSpec(r, n)
+		spec := randSpec(r, n, false)
 		k := uint64(r.Range(1, n))
 		var sz int
 		if r.Chance(70) {
